@@ -253,8 +253,19 @@ static struct vh_blk *vh_tab_find(void *p) {
 static int vh_recycle;
 static struct vh_blk vh_rcy[128];
 static int vh_nrcy;
+#ifdef VS_TSAN
+static void __asan_poison_memory_region(void const volatile *addr, size_t size) {
+    (void)addr;
+    (void)size;
+}
+static void __asan_unpoison_memory_region(void const volatile *addr, size_t size) {
+    (void)addr;
+    (void)size;
+}
+#else
 void __asan_poison_memory_region(void const volatile *addr, size_t size);
 void __asan_unpoison_memory_region(void const volatile *addr, size_t size);
+#endif
 
 /* set by the controlled scheduler: memory allocation is a place where a real thread can be preempted for long */
 static void (*vh_alloc_point)(void);
@@ -268,6 +279,7 @@ static void *vh_acq(struct aws_allocator *a, size_t n) {
         vh_alloc_point();
     }
     void *p = NULL;
+#ifndef VS_TSAN /* recycling bypasses free/malloc, which is where the race detector learns that a block changed hands */
     if (vh_recycle) {
         for (int i = vh_nrcy - 1; i >= 0; --i) {
             if (vh_rcy[i].n == n) {
@@ -279,6 +291,7 @@ static void *vh_acq(struct aws_allocator *a, size_t n) {
             }
         }
     }
+#endif
     if (!p) {
         p = malloc(n ? n : 1);
     }
@@ -320,6 +333,7 @@ static void vh_rel(struct aws_allocator *a, void *p) {
     }
     size_t n = vh_block_size_raw(p);
     vh_note_release(p);
+#ifndef VS_TSAN
     if (vh_recycle && n != (size_t)-1 && n > 0 && vh_nrcy < 128) {
         __asan_poison_memory_region(p, n);
         vh_rcy[vh_nrcy].p = p;
@@ -327,6 +341,7 @@ static void vh_rel(struct aws_allocator *a, void *p) {
         vh_nrcy++;
         return;
     }
+#endif
     free(p);
 }
 static void *vh_realloc(struct aws_allocator *a, void *old, size_t oldn, size_t newn) {
